@@ -88,7 +88,8 @@ T2_BODIES = [[lit("["), ("param", "1", None), lit("]")], [("param", "1", [lit("e
 def t1_bodies(ws):
     p1, px = ("param", "1", None), ("param", "x", None)
     out = [[lit("t")], [p1], [px], [("param", "1", [lit("d")])], [("param", "1", [("param", "x", [lit("dd")])])], [lit("<"), p1, lit(">")],
-           [p1, px], [("call", "T2", [(None, ws, [p1], ws)])], [("call", "T2", [("1", ws, [p1], ws), ("x", ws, [px], ws)])],
+           [p1, px], [("param", " 1 ", None), lit("/"), ("param", " x ", None), lit("/"), ("param", "\nx", [lit("d")])],
+           [("call", "T2", [(None, ws, [p1], ws)])], [("call", "T2", [("1", ws, [p1], ws), ("x", ws, [px], ws)])],
            [("call", "T2", [(None, "", [lit("k")], "")]), p1],
            [("if", (ws, [p1], ws), (ws, [lit("set")], ws), (ws, [lit("unset")], ws))],
            [("if", (ws, [("param", "1", [])], ws), (ws, [p1], ws), (ws, [px], ws))],
